@@ -196,7 +196,8 @@ void msg_ops(G &g, int nops, bool with_names, bool with_replies, bool forged, bo
       if (dk < 40) dest = "$u" + std::to_string(g.a_client());
       else if (dk < 75 && with_names) dest = g.a_name();
       else if (dk < 82) dest = "com.example.missing";
-      else if (dk < 88) dest = ":0.0";
+      else if (dk < 86) dest = ":0.0";
+      else if (dk < 88) dest = "$u" + std::to_string(g.a_client()) + (g.r.pct(60) ? "+" + std::to_string(g.r.below(10)) : std::string("-"));   // near miss of a live unique name: nobody
       else if (broadcasts) dest = "";
       else dest = "$u" + std::to_string(g.a_client());
       int64_t type = g.r.pct(60) ? 1 : (int64_t)g.r.range(1, 4);
